@@ -264,14 +264,16 @@ func (vc *VC) applyContract(st *State, c *Contract, key string, sig *types.Signa
 		vc.havocAll(st)
 		vc.assumptions["callee "+key+" has no modifies clause: all heap components havocked at the call"] = true
 	} else {
-		for _, m := range c.Modifies {
-			vc.havocModLoc(st, env, m, key)
-		}
+		// the callee may allocate: advance the watermark first, so that havocked locations may
+		// hold objects allocated by the callee
 		if !c.Pure {
 			na := vc.fresh("alloc")
 			vc.declare(na, "Int")
 			vc.assume(st, app("<=", st.alloc, na))
 			st.alloc = na
+		}
+		for _, m := range c.Modifies {
+			vc.havocModLoc(st, env, m, key)
 		}
 	}
 	// results
@@ -761,6 +763,7 @@ func (vc *VC) builtin(st *State, b *ssa.Builtin, c *ssa.CallCommon, rt types.Typ
 		if _, _, _, ok := vc.mapComps(c.Args[0].Type()); ok {
 			name, srt, h := vc.mapHeap(st, c.Args[0].Type(), ".has", "Bool")
 			vc.heapSet(st, name, srt, store(h, m.S, store(sel(h, m.S), k.S, "false")))
+			vc.clobberMaps(typeKey(c.Args[0].Type()))
 			return Val{K: KUnit}
 		}
 	case "recover":
@@ -843,7 +846,7 @@ func (vc *VC) appendBuiltin(st *State, c *ssa.CallCommon, args []Val, rt types.T
 			moved := Term(na)
 			for j := 0; j < small; j++ {
 				x := srcAt(num(int64(j)))
-				inPlace = store(inPlace, app("+", app("+", s.Sl[1], s.Sl[2]), num(int64(j))), x)
+				inPlace = store(inPlace, vc.ix(s.Sl[1], app("+", s.Sl[2], num(int64(j)))), x)
 				moved = store(moved, app("+", s.Sl[2], num(int64(j))), x)
 			}
 			vc.heapSet(st, name, srt, ite(fits, store(h, s.Sl[0], inPlace), store(h, freshArr, moved)))
